@@ -494,6 +494,43 @@ func runC08PublicIPOverlap(c *fw.Ctx, id string) {
 	}
 }
 
+// runC08RealtimeSmoke: one ordinary run of a variant on the REAL clock (destination at TTL 3 of 4, 30 ms replies, timeout
+// 300 ms). On the virtual clock a goroutine blocked on a mutex freezes the bubble (the case watchdog then ends the check as
+// inconclusive); here a run that deadlocks simply does not come back: the bound is well under a second, the verdict
+// threshold is 20 s.
+func runC08RealtimeSmoke(c *fw.Ctx, id string, v refmatch.Variant) {
+	spec := defaultSpec(v, 100+c.Worker, 1, 4)
+	spec.Timeout, spec.Delay, spec.Poll, spec.HandshakeTimeout = 300*time.Millisecond, 20*time.Millisecond, 50*time.Millisecond, 500*time.Millisecond
+	if v.Proto == "sack" {
+		spec.Port = uint16(27000 + c.Worker)
+	}
+	e, err := newSimEnv(c, spec, 0x10000000)
+	if err != nil {
+		c.Inconclusive(err.Error())
+		return
+	}
+	m := &pathModel{hops: map[int]*hopSpec{}, dist: 3, destDelay: 30 * time.Millisecond}
+	for t := 1; t < 3; t++ {
+		m.hops[t] = &hopSpec{addr: routerAddr(v.V6, 1, t), delay: 30 * time.Millisecond}
+	}
+	done := make(chan drive.Result, 1)
+	t0 := time.Now()
+	go func() { done <- e.run(m) }()
+	select {
+	case res := <-done:
+		e.close()
+		c.Nontrivial("realtime-smoke/" + v.Name)
+		c.Count("realtime_smoke_ms", int(time.Since(t0).Milliseconds()))
+		if res.Err != nil {
+			c.Inconclusive(fmt.Sprintf("%s: run failed: %v", id, res.Err))
+		}
+	case <-time.After(20 * time.Second):
+		// the run never returned; its goroutines stay behind (the handle is left open on purpose: closing it could
+		// unblock them and hide the hang from the dump)
+		c.Violate("C08", "realtime-hang/"+v.Name, fmt.Sprintf("%s: an ordinary run (4 TTLs, timeout 300 ms, replies after 30 ms) had not returned after 20 s of real time", id), map[string]any{"goroutines": repoGoroutines()})
+	}
+}
+
 // runC08SackSilentTarget: a SACK run against a target that silently drops the SYN (an address behind the peer
 // namespace, which does not forward). The TCP dial is a real syscall, so this runs on the REAL clock, outside a
 // bubble. The dial must be abandoned after HandshakeTimeout (300 ms); the whole-run deadline (handshake + FIN
@@ -649,6 +686,11 @@ func checkC08() fw.Check {
 			var cases []fw.Case
 			// first: if this one already shows a serialised fan-out, the bubble cases below would stall on it
 			cases = append(cases, fw.Case{ID: "C08/rdns-realtime", Run: func(c *fw.Ctx) { runC08RdnsRealTime(c, c.ID) }})
+			for _, v := range refmatch.Variants {
+				v := v
+				id := "C08/realtime-smoke/" + v.Name
+				cases = append(cases, fw.Case{ID: id, Run: func(c *fw.Ctx) { runC08RealtimeSmoke(c, id, v) }})
+			}
 			cases = append(cases, fw.Case{ID: "C08/publicip-overlap-realtime", Run: func(c *fw.Ctx) { runC08PublicIPOverlap(c, c.ID) }})
 			cases = append(cases, fw.Case{ID: "C08/sack-silent-target", Run: func(c *fw.Ctx) { runC08SackSilentTarget(c, c.ID) }})
 			wins := []window{{1, 6}}
